@@ -340,6 +340,9 @@ pub struct RunArgs {
     /// Sized-down runs (Miri): execute only about this many cases per stream and shard, spread
     /// evenly over the stream, instead of every case of the shard.
     pub per_stream: Option<u64>,
+    /// Sized-down runs: streams whose name starts with one of these prefixes are not executed
+    /// (their cases are whole exhaustive blocks, far too large for the interpreter).
+    pub skip_streams: Vec<String>,
 }
 
 const BATCH: u64 = 2048;
@@ -381,7 +384,7 @@ pub fn run_property(prop: &dyn Property, args: &RunArgs) -> std::io::Result<()> 
         let lo = base;
         let hi = base + st.count;
         base = hi;
-        if args.start >= hi {
+        if args.start >= hi || args.skip_streams.iter().any(|p| st.name.starts_with(p.as_str())) {
             continue;
         }
         // first g >= max(lo, start) with g % nshards == shard
